@@ -26,6 +26,7 @@ import (
 
 	"github.com/risor-io/risor"
 	"github.com/risor-io/risor/object"
+	"github.com/risor-io/risor/vm"
 )
 
 // ---------------------------------------------------------------- the zoo of declared types
@@ -109,25 +110,25 @@ func (r *Rec) TakeTwo(a int, b string)        { r.rec(a, b) }
 func (r *Rec) TakeThree(a int8, b []int, c map[string]string) {
 	r.rec(a, b, c)
 }
-func (r *Rec) RetInt() int             { return -7 }
-func (r *Rec) RetU64() uint64          { return math.MaxUint64 }
-func (r *Rec) RetU8() uint8            { return 200 }
-func (r *Rec) RetF32() float32         { return 1.5 }
-func (r *Rec) RetStr() string          { return "ret" }
-func (r *Rec) RetDur() time.Duration   { return time.Second }
-func (r *Rec) RetMyInt() MyInt         { return 7 }
-func (r *Rec) RetInts() Ints           { return Ints{1, 2} }
-func (r *Rec) RetMyInts() MyInts       { return MyInts{1} }
-func (r *Rec) RetArr() [2]int          { return [2]int{3, 4} }
-func (r *Rec) RetMap() map[string]int  { return map[string]int{"a": 1} }
-func (r *Rec) RetPInt() *int           { x := 5; return &x }
-func (r *Rec) RetNilPInt() *int        { return nil }
-func (r *Rec) RetInner() Inner         { return Inner{1, "b"} }
-func (r *Rec) RetPInner() *Inner       { return &Inner{2, "c"} }
-func (r *Rec) RetAny() any             { return int32(9) }
-func (r *Rec) RetNilAny() any          { return nil }
-func (r *Rec) RetBytes() []byte        { return []byte("ab") }
-func (r *Rec) RetTime() time.Time      { return time.Unix(0, 1500).UTC() }
+func (r *Rec) RetInt() int            { return -7 }
+func (r *Rec) RetU64() uint64         { return math.MaxUint64 }
+func (r *Rec) RetU8() uint8           { return 200 }
+func (r *Rec) RetF32() float32        { return 1.5 }
+func (r *Rec) RetStr() string         { return "ret" }
+func (r *Rec) RetDur() time.Duration  { return time.Second }
+func (r *Rec) RetMyInt() MyInt        { return 7 }
+func (r *Rec) RetInts() Ints          { return Ints{1, 2} }
+func (r *Rec) RetMyInts() MyInts      { return MyInts{1} }
+func (r *Rec) RetArr() [2]int         { return [2]int{3, 4} }
+func (r *Rec) RetMap() map[string]int { return map[string]int{"a": 1} }
+func (r *Rec) RetPInt() *int          { x := 5; return &x }
+func (r *Rec) RetNilPInt() *int       { return nil }
+func (r *Rec) RetInner() Inner        { return Inner{1, "b"} }
+func (r *Rec) RetPInner() *Inner      { return &Inner{2, "c"} }
+func (r *Rec) RetAny() any            { return int32(9) }
+func (r *Rec) RetNilAny() any         { return nil }
+func (r *Rec) RetBytes() []byte       { return []byte("ab") }
+func (r *Rec) RetTime() time.Time     { return time.Unix(0, 1500).UTC() }
 
 // ---------------------------------------------------------------- type and value descriptions
 
@@ -552,23 +553,102 @@ type caseIn struct {
 		T       json.RawMessage `json:"t"`
 		V       json.RawMessage `json:"v"`
 		Untyped bool            `json:"untyped"`
+		// sequences only: hand over the very Go value this name was given in the previous step (the same pointer, slice
+		// header, map, or an equal copy of a value type); with "poke" the host first stores new contents IN PLACE through
+		// that pointer / into that slice (same length) / into that map
+		Same bool            `json:"same,omitempty"`
+		Poke json.RawMessage `json:"poke,omitempty"`
 	} `json:"globals"`
 	Src string `json:"src"` // hex of the script
+	// a sequence of evaluations that pass globals under the same names: "reuse": true runs them all on ONE VM
+	// (vm.NewEmpty + risor.WithVM), false gives every step a VM of its own; the Go values live across the steps either way
+	Seq   []caseIn `json:"seq,omitempty"`
+	Reuse bool     `json:"reuse,omitempty"`
+}
+
+// what lives across the steps of a sequence
+type session struct {
+	machine *vm.VirtualMachine
+	prev    []reflect.Value // the Go value handed over as g<i> in the previous step
+	prevOK  []bool
+}
+
+// pokeInPlace stores the contents of nv into the memory old refers to
+func pokeInPlace(old, nv reflect.Value) error {
+	switch old.Kind() {
+	case reflect.Pointer:
+		if old.IsNil() || nv.IsNil() {
+			return fmt.Errorf("poke through a nil pointer")
+		}
+		old.Elem().Set(nv.Elem())
+	case reflect.Slice:
+		if old.Len() != nv.Len() {
+			return fmt.Errorf("poke of a slice with another length")
+		}
+		reflect.Copy(old, nv)
+	case reflect.Map:
+		if old.IsNil() || nv.IsNil() {
+			return fmt.Errorf("poke of a nil map")
+		}
+		for _, k := range old.MapKeys() {
+			old.SetMapIndex(k, reflect.Value{})
+		}
+		for _, k := range nv.MapKeys() {
+			old.SetMapIndex(k, nv.MapIndex(k))
+		}
+	default:
+		return fmt.Errorf("poke of a %s", old.Kind())
+	}
+	return nil
 }
 
 type caseOut struct {
-	Outcome string   `json:"outcome"` // ok | err | panic (recovered by the VM) | escaped (panic out of Eval)
-	Raw     string   `json:"raw,omitempty"`
-	Obj     string   `json:"obj,omitempty"`   // the result object
-	Iface   string   `json:"iface,omitempty"` // result.Interface()
-	Cells   []string `json:"cells"`           // the Go-side cells after the evaluation
-	Got     []string `json:"got"`             // arguments received by the methods of *Rec cells
+	Steps   []caseOut `json:"steps,omitempty"` // sequences: one observation per step
+	Outcome string    `json:"outcome"`         // ok | err | panic (recovered by the VM) | escaped (panic out of Eval)
+	Raw     string    `json:"raw,omitempty"`
+	Obj     string    `json:"obj,omitempty"`   // the result object
+	Iface   string    `json:"iface,omitempty"` // result.Interface()
+	Cells   []string  `json:"cells"`           // the Go-side cells after the evaluation
+	Got     []string  `json:"got"`             // arguments received by the methods of *Rec cells
+}
+
+func runSeq(c *caseIn) (out caseOut) {
+	ss := &session{}
+	if c.Reuse {
+		m, err := vm.NewEmpty()
+		if err != nil {
+			return caseOut{Outcome: "BADCASE", Raw: err.Error()}
+		}
+		ss.machine = m
+	}
+	out.Outcome = "seq"
+	for i := range c.Seq {
+		out.Steps = append(out.Steps, runCaseIn(&c.Seq[i], ss))
+	}
+	return out
 }
 
 func runCase(c *caseIn) (out caseOut) {
+	if len(c.Seq) > 0 {
+		return runSeq(c)
+	}
+	return runCaseIn(c, nil)
+}
+
+func runCaseIn(c *caseIn, ss *session) (out caseOut) {
 	out.Cells = []string{}
 	out.Got = []string{}
 	var opts []risor.Option
+	if ss != nil && ss.machine != nil {
+		opts = append(opts, risor.WithVM(ss.machine))
+	}
+	var handed []reflect.Value
+	var handedOK []bool
+	defer func() {
+		if ss != nil {
+			ss.prev, ss.prevOK = handed, handedOK
+		}
+	}()
 	var cells []reflect.Value
 	var recs []*Rec
 	for i, cd := range c.Cells {
@@ -599,6 +679,25 @@ func runCase(c *caseIn) (out caseOut) {
 	for i, gd := range c.Globals {
 		if gd.Untyped {
 			opts = append(opts, risor.WithGlobal(fmt.Sprintf("g%d", i), nil))
+			handed, handedOK = append(handed, reflect.Value{}), append(handedOK, false)
+			continue
+		}
+		if gd.Same {
+			if ss == nil || i >= len(ss.prev) || !ss.prevOK[i] {
+				return caseOut{Outcome: "BADCASE", Raw: "same: no value from the previous step"}
+			}
+			v := ss.prev[i]
+			if len(gd.Poke) > 0 {
+				nv, err := buildValue(v.Type(), gd.Poke, cells)
+				if err != nil {
+					return caseOut{Outcome: "BADCASE", Raw: err.Error()}
+				}
+				if err := pokeInPlace(v, nv); err != nil {
+					return caseOut{Outcome: "BADCASE", Raw: err.Error()}
+				}
+			}
+			opts = append(opts, risor.WithGlobal(fmt.Sprintf("g%d", i), v.Interface()))
+			handed, handedOK = append(handed, v), append(handedOK, true)
 			continue
 		}
 		td, err := parseT(gd.T)
@@ -614,6 +713,7 @@ func runCase(c *caseIn) (out caseOut) {
 			return caseOut{Outcome: "BADCASE", Raw: err.Error()}
 		}
 		opts = append(opts, risor.WithGlobal(fmt.Sprintf("g%d", i), v.Interface()))
+		handed, handedOK = append(handed, v), append(handedOK, true)
 	}
 	srcb, _ := hex.DecodeString(c.Src)
 	finish := func() {
